@@ -402,7 +402,492 @@ def replay_c08(rec):
     return 0 if f is not None else 2
 
 
-RUN = {"C07": (run_c07, replay_c07), "C08": (run_c08, replay_c08)}
+
+# ---------------------------------------------------------------------------------------
+# C15: inserting a split and restating later rows changes no gain, SfL amount or cost base
+
+FACTORS = [("2-for-1", Fraction(2)), ("4-for-1", Fraction(4)), ("5-for-1", Fraction(5)), ("10-for-1", Fraction(10)),
+           ("1.0-for-2.0", Fraction(1, 2)), ("1.0-for-4.0", Fraction(1, 4)), ("1.0-for-5.0", Fraction(1, 5)),
+           ("5-for-2", Fraction(5, 2)), ("2.0-for-5.0", Fraction(2, 5)), ("1.0-for-10.0", Fraction(1, 10)),
+           ("2.5-for-1", Fraction(5, 2)), ("0.5-for-1", Fraction(1, 2))]
+
+
+def c15_profile(rng):
+    return gen.Knobs(affiliates=rng.choice(ALL_AFS), n_secs=(1, 2), n_rows=(4, 30), opening=0.15,
+                     offsets=[0, 0, 1, 2, 5, 10, 14, 20, 29, 30, 31, 45, 90], p_loss_bias=0.7,
+                     max_dp_shares=2, shuffle_file_order=0.0, p_invalid=rng.choice([0, 0, 0.03]),
+                     weights={"Buy": 5, "Sell": 5, "RoC": 1, "SfLA": 0.2, "Split": 0})
+
+
+def restate(row, f):
+    r = dict(row)
+    if r["action"] in ("Buy", "Sell", "SfLA"):
+        r["shares"] = gen.dec_str(Fraction(r["shares"]) * f, 20)
+        r["aps"] = gen.dec_str(Fraction(r["aps"]) / f, 20)
+    elif r["action"] == "RoC":
+        r["aps"] = gen.dec_str(Fraction(r["aps"]) / f, 20)
+    return r
+
+
+def c15_variant(rng, h):
+    """-> (h2, info) with one inserted split in one security."""
+    rows = sorted(h["rows"], key=lambda r: r["sd"])    # stable: file order within a day
+    secs = sorted({r["sec"] for r in rows})
+    sec = rng.choice(secs)
+    idxs = [i for i, r in enumerate(rows) if r["sec"] == sec]
+    p = rng.choice(idxs + [idxs[-1] + 1]) if rng.random() < 0.9 else idxs[0]
+    name, f = rng.choice(FACTORS)
+    if p < len(rows):
+        sd = rows[p]["sd"]
+        if rng.random() < 0.4 and p > 0:
+            # a day strictly between two events, when there is one
+            d0 = datetime.date.fromisoformat(rows[p - 1]["sd"])
+            d1 = datetime.date.fromisoformat(rows[p]["sd"])
+            if (d1 - d0).days >= 2:
+                sd = (d0 + datetime.timedelta(days=rng.randint(1, (d1 - d0).days - 1))).isoformat()
+    else:
+        sd = (datetime.date.fromisoformat(rows[-1]["sd"]) + datetime.timedelta(days=rng.choice([1, 10, 29, 30, 31, 40]))).isoformat()
+    per_af = rng.random() < 0.5
+    afs = sorted({ref.af_norm(r.get("af")) for r in rows if r["sec"] == sec} | ({"default"} if sec in h.get("init", {}) else set()))
+    spell = {}
+    for r in rows:
+        if r["sec"] == sec:
+            spell.setdefault(ref.af_norm(r.get("af")), r.get("af") or "Default")
+    spell.setdefault("default", "Default")
+    if per_af:
+        order = list(afs)
+        rng.shuffle(order)
+        srows = [mkrow(sec, sd, "Split", spell[a], split=name) for a in order]
+    else:
+        srows = [mkrow(sec, sd, "Split", "", split=name)]
+    out = []
+    for i, r in enumerate(rows):
+        if i == p:
+            out.extend(srows)
+        out.append(restate(r, f) if (i >= p and r["sec"] == sec) else dict(r))
+    if p >= len(rows):
+        out.extend(srows)
+    return {"rows": out, "init": h.get("init", {}), "features": []}, {"sec": sec, "p": p, "f": f, "sd": sd, "per_af": per_af,
+                                                                      "name": name, "base_sorted": rows}
+
+
+def c15_compare(ra, rb, info):
+    """ra: base run; rb: run with the inserted split."""
+    if ra.get("ok") != rb.get("ok"):
+        return {"what": "acceptance differs", "ok": [ra.get("ok"), rb.get("ok")], "err": [ra.get("err"), rb.get("err")]}
+    if not ra.get("ok"):
+        return None
+    sec, f, sd = info["sec"], info["f"], info["sd"]
+    for s2 in ra["tables"]:
+        if s2 != sec:
+            d = first_diff(table_sig(ra["tables"][s2]), table_sig(rb["tables"][s2]))
+            if d:
+                return {"what": "another security changed", "sec": s2, "diff": d}
+    ta, tb = ra["tables"][sec], rb["tables"][sec]
+    col = {h: i for i, h in enumerate(ta["header"])}
+    rows_b = [r for r in tb["rows"] if not (r[col["TX"]] == "Split" and r[col["Settl. Date"]] == sd)]
+    n_split = len(tb["rows"]) - len(rows_b)
+    if bool(ta["errors"]) != bool(tb["errors"]):
+        return {"what": "acceptance of the security differs", "errors": [ta["errors"], tb["errors"]]}
+    if len(rows_b) != len(ta["rows"]):
+        return {"what": "row count differs", "rows": [len(ta["rows"]), len(rows_b)]}
+    seen_split = False
+    bi = 0
+    after = False
+    # walk tb in order to know which rows come after the split
+    flags = []
+    for r in tb["rows"]:
+        if r[col["TX"]] == "Split" and r[col["Settl. Date"]] == sd:
+            after = True
+            continue
+        flags.append(after)
+    eps = ref.EPS
+    for i, (x, y) in enumerate(zip(ta["rows"], rows_b)):
+        g1, s1 = ref.parse_gain_cell(x[col["Cap. Gain"]])
+        g2, s2 = ref.parse_gain_cell(y[col["Cap. Gain"]])
+        if not ref.close(g1, g2):
+            return {"what": "capital gain changed", "row": i, "base": str(g1), "split": str(g2)}
+        a1 = s1["amount"] if s1 else None
+        a2 = s2["amount"] if s2 else None
+        if not ref.close(a1, a2):
+            return {"what": "superficial-loss amount changed", "row": i, "base": str(a1), "split": str(a2)}
+        for cname in ("New ACB", "ACB +/-"):
+            v1, v2 = ref.money(x[col[cname]]), ref.money(y[col[cname]])
+            if not ref.close(v1, v2):
+                return {"what": "total cost base changed", "col": cname, "row": i, "base": str(v1), "split": str(v2)}
+        o1, al1, _ = ref.parse_balance_cell(x[col["Share Balance"]])
+        o2, al2, _ = ref.parse_balance_cell(y[col["Share Balance"]])
+        k = f if flags[i] else Fraction(1)
+        if o1 is not None and o2 is not None and not ref.close(o1 * k, o2):
+            return {"what": "share balance does not scale by the ratio", "row": i, "base": str(o1), "split": str(o2), "scale": str(k)}
+        p1, p2 = ref.money(x[col["New ACB/Share"]]), ref.money(y[col["New ACB/Share"]])
+        if p1 is not None and p2 is not None and not ref.close(p1 / k, p2, eps * max(1, p1)):
+            return {"what": "per-share cost does not scale by the ratio", "row": i, "base": str(p1), "split": str(p2)}
+    return None
+
+
+def c15_nontrivial(h, info):
+    """inserted split inside the +-30 day window of a loss sale (approximated from prices is not
+    possible here, so: of any sale), or an affiliate of the security holds nothing at the split."""
+    sd = datetime.date.fromisoformat(info["sd"])
+    sec = info["sec"]
+    near = any(r["sec"] == sec and r["action"] == "Sell" and abs((datetime.date.fromisoformat(r["sd"]) - sd).days) <= 30
+               for r in h["rows"])
+    held = {}
+    for r in info["base_sorted"][:info["p"]]:
+        if r["sec"] != sec:
+            continue
+        a = ref.af_norm(r.get("af"))
+        if r["action"] == "Buy":
+            held[a] = held.get(a, Fraction(0)) + Fraction(r["shares"])
+        elif r["action"] == "Sell":
+            held[a] = held.get(a, Fraction(0)) - Fraction(r["shares"])
+    afs = {ref.af_norm(r.get("af")) for r in h["rows"] if r["sec"] == sec}
+    empty = any(held.get(a, 0) == 0 for a in afs)
+    return near or empty
+
+
+def c15_worker(shard):
+    cases = []
+    meta = []
+    for cid, name, h, K in shard:
+        cases.append(history_to_case(cid + "#base", h))
+        vs = []
+        for k in range(K):
+            rng = common.rng_for(cid, "split", k)
+            h2, info = c15_variant(rng, h)
+            cases.append(history_to_case("%s#S%d" % (cid, k), h2))
+            vs.append((k, h2, info))
+        meta.append((cid, name, h, vs))
+    res = common.run_harness("app", cases, tag="c15", nproc=1)
+    out = []
+    for cid, name, h, vs in meta:
+        rb = res.get(cid + "#base", {})
+        j = {"cid": cid, "name": name, "unjudged": False, "findings": [], "pairs": 0, "nontrivial": 0, "in_window": 0}
+        if "panic" in rb or "crash" in rb or "hang" in rb:
+            j["unjudged"] = True
+            out.append(j)
+            continue
+        for k, h2, info in vs:
+            r2 = res.get("%s#S%d" % (cid, k), {})
+            if "panic" in r2 or "crash" in r2 or "hang" in r2:
+                continue
+            j["pairs"] += 1
+            try:
+                d = c15_compare(rb, r2, info)
+            except ValueError as e:
+                d = {"what": "unparsable cell", "err": str(e)}
+            if c15_nontrivial(h, info):
+                j["nontrivial"] += 1
+            if d is not None:
+                j["findings"].append({"what": d["what"], "diff": d, "variant": h2,
+                                      "info": {"sec": info["sec"], "sd": info["sd"], "ratio": info["name"], "per_af": info["per_af"], "p": info["p"], "f": str(info["f"])}})
+                j["history"] = h
+                break
+        if not j["findings"] and len(out) < 1 and vs:
+            j["sample"] = {"base": gen.rows_to_csv(h["rows"], gen.used_cols(h["rows"]))[:500],
+                           "with_split": gen.rows_to_csv(vs[0][1]["rows"], gen.used_cols(vs[0][1]["rows"]))[:700]}
+        out.append(j)
+    return out
+
+
+def run_c15(tier):
+    seed = common.seed()
+    common.build()
+    V = Verdict("C15", tier)
+    V.rule = ("split-free base histories x K variants with one inserted a-for-b split (ratios with only 2 and 5 as prime factors so that the restatement "
+              "is exact: 2,4,5,10,1/2,1/4,1/5,1/10,5/2,2/5; forward, reverse and decimal forms) at a random position (on an event's day, between two events, "
+              "after the last), given once for all affiliates or once per affiliate; later quantities x ratio, per-share amounts / ratio; non-trivial = the "
+              "split falls within 30 days of a sale of that security, or an affiliate of the security holds nothing at the split")
+    n = {"quick": 600, "thorough": 15000}[tier]
+    K = {"quick": 5, "thorough": 12}[tier]
+    pop = []
+    for i in range(n):
+        rng = common.rng_for(seed, "C15", i)
+        hh = gen.HistoryGen(rng, c15_profile(rng)).gen()
+        if not hh["rows"]:
+            continue
+        pop.append((common.case_id(seed, "C15", i), "base #%d" % i, hh, K))
+    nsh = common.NPROC * 4
+    shards = [s for s in (pop[i::nsh] for i in range(nsh)) if s]
+    with multiprocessing.Pool(common.NPROC) as pool:
+        parts = pool.map(c15_worker, shards)
+    for part in parts:
+        for j in part:
+            V.count()
+            if j["unjudged"]:
+                V.unjudged += 1
+                continue
+            V.bump("pairs_compared", j["pairs"])
+            V.bump("nontrivial_pairs", j["nontrivial"])
+            if j["nontrivial"]:
+                V.nontriv(j["cid"])
+            if "sample" in j:
+                V.sample(j["sample"], cap=2)
+            for f in j["findings"][:1]:
+                V.violation("%s %s [%s]" % (json.dumps(f["diff"])[:300], json.dumps(f["info"]), j["name"]),
+                            {"kind": "split_variant", "prop": "C15", "history": j["history"], "variant": f["variant"], "info": f["info"]},
+                            {"what": f["what"]})
+    return V.finish(floor_eval=100, floor_nontrivial=10, floors={"pairs_compared": 1000})
+
+
+def replay_c15(rec):
+    c = rec["case"]
+    common.build()
+    res = common.run_harness("app", [history_to_case("a", c["history"]), history_to_case("b", c["variant"])], tag="c15r", nproc=1)
+    info = dict(c["info"])
+    info["f"] = Fraction(info["f"])
+    d = c15_compare(res["a"], res["b"], info)
+    if d:
+        print("replay finding:", json.dumps(d)[:800])
+        print("VIOLATION property=C15 replay=%s" % sys.argv[2])
+        return 1
+    print("replay: no finding reproduced")
+    return 0
+
+
+# ---------------------------------------------------------------------------------------
+# C16: -b SYM:n:c equals an opening purchase by the default affiliate
+
+MALFORMED = ["FOO", "FOO:1", "FOO:1:2:3", ":1:2", " :1:2", "FOO:x:1", "FOO:1:y", "FOO:-1:5", "FOO:1:-5", "FOO::", "FOO:1e3:5",
+             "FOO:1:", "FOO: :1", "::", "", "FOO:1:2:", "A:B:C:1:2"]
+
+
+def c16_profile(rng):
+    return gen.Knobs(affiliates=rng.choice(ALL_AFS), n_secs=(1, 3), n_rows=(3, 30), opening=0.0,
+                     offsets=[0, 0, 1, 2, 5, 10, 14, 20, 29, 30, 31, 45, 90], p_loss_bias=0.7,
+                     p_invalid=rng.choice([0, 0, 0.03]),
+                     weights={"Buy": 5, "Sell": 5, "RoC": 1, "SfLA": 0.2, "Split": 1.2})
+
+
+def c16_build(rng, h):
+    secs = sorted({r["sec"] for r in h["rows"]})
+    sym = rng.choice(secs)
+    n = rng.choice(["10", "100", "3", "7.5", "0.001", "33.3333", gen.rand_dec(rng, 1, 500, rng.choice([0, 2, 4])), "0"])
+    c = rng.choice(["0", "100", "1234.56", gen.rand_dec(rng, 0, 50000, 2), "0.01"])
+    if Fraction(n) == 0:
+        c = "0"
+    first = min(datetime.date.fromisoformat(r["td"]) for r in h["rows"])
+    first = min(first, min(datetime.date.fromisoformat(r["sd"]) for r in h["rows"]))
+    d0 = (first - datetime.timedelta(days=rng.choice([31, 32, 400, 1000]))).isoformat()
+    other_init = {}
+    if rng.random() < 0.4:
+        other_init["NOTHERE"] = (rng.choice(["5", "0", "12.5"]), rng.choice(["50", "0"]))
+    a = {"rows": h["rows"], "init": dict([(sym, (n, c))] + list(other_init.items())), "features": []}
+    pre = []
+    if Fraction(n) > 0:
+        pre = [mkrow(sym, d0, "Buy", rng.choice(["", "Default"]), shares=n, aps="0", comm=c if Fraction(c) > 0 else "", cur="CAD")]
+    b = {"rows": pre + list(h["rows"]), "init": {}, "features": []}
+    return a, b, {"sym": sym, "n": n, "c": c, "prepended": len(pre)}
+
+
+def c16_compare(ra, rb, info):
+    if ra.get("ok") != rb.get("ok"):
+        return {"what": "one form is accepted and the other is not", "ok": [ra.get("ok"), rb.get("ok")], "err": [ra.get("err"), rb.get("err")]}
+    if not ra.get("ok"):
+        return None
+    if "NOTHERE" in ra["tables"]:
+        return {"what": "an opening position created a table for a security without rows"}
+    if set(ra["tables"]) != set(rb["tables"]):
+        return {"what": "securities differ", "secs": [sorted(ra["tables"]), sorted(rb["tables"])]}
+    for sec in ra["tables"]:
+        sa = table_sig(ra["tables"][sec])
+        sb = table_sig(rb["tables"][sec])
+        if sec == info["sym"] and info["prepended"]:
+            sb["rows"] = sb["rows"][1:]
+        if sec == info["sym"] and not info["prepended"]:
+            # SYM:0:0 is compared with no purchase at all. The default affiliate then may or may
+            # not be listed in the per-affiliate rows of a split for all affiliates; such a row
+            # (zero shares, zero change) corresponds to no input row and carries no figure.
+            hdr = ra["tables"][sec]["header"]
+            ci = {h_: i for i, h_ in enumerate(hdr)}
+
+            def zero_split(r):
+                return (r[ci["TX"]] == "Split" and r[ci["Shares"]] == "0"
+                        and ref.af_norm(r[ci["Affiliate"]]) == "default")
+            sa["rows"] = [r for r in sa["rows"] if not zero_split(r)]
+            sb["rows"] = [r for r in sb["rows"] if not zero_split(r)]
+        d = first_diff(sa, sb)
+        if d:
+            return {"what": "figures differ between --symbol-base and an opening purchase", "sec": sec, "diff": d}
+    d = first_diff(table_sig(ra["agg"]), table_sig(rb["agg"]))
+    if d:
+        return {"what": "aggregate differs", "diff": d}
+    return None
+
+
+def c16_nontrivial(h, info):
+    rows = [r for r in h["rows"] if r["sec"] == info["sym"]]
+    afs = {ref.af_norm(r.get("af")) for r in rows if not (r["action"] == "Split" and not (r.get("af") or "").strip())}
+    has_other = len(afs - {"default"}) > 0
+    has_split = any(r["action"] == "Split" for r in rows)
+    first = min(datetime.date.fromisoformat(r["sd"]) for r in rows)
+    early_sale = any(r["action"] == "Sell" and (datetime.date.fromisoformat(r["sd"]) - first).days <= 30 for r in rows)
+    return has_other or has_split or early_sale
+
+
+def c16_worker(shard):
+    cases = []
+    meta = []
+    for cid, name, h in shard:
+        rng = common.rng_for(cid, "open")
+        a, b, info = c16_build(rng, h)
+        cases.append(history_to_case(cid + "#A", a))
+        cases.append(history_to_case(cid + "#B", b))
+        meta.append((cid, name, h, a, b, info))
+    res = common.run_harness("app", cases, tag="c16", nproc=1)
+    out = []
+    for cid, name, h, a, b, info in meta:
+        ra, rb = res.get(cid + "#A", {}), res.get(cid + "#B", {})
+        j = {"cid": cid, "name": name, "unjudged": False, "findings": [], "nontrivial": c16_nontrivial(h, info)}
+        if any(k in r for r in (ra, rb) for k in ("panic", "crash", "hang")):
+            j["unjudged"] = True
+            out.append(j)
+            continue
+        try:
+            d = c16_compare(ra, rb, info)
+        except ValueError as e:
+            d = {"what": "unparsable cell", "err": str(e)}
+        if d:
+            j["findings"].append({"what": d["what"], "diff": d, "a": a, "b": b, "info": info})
+        elif len(out) < 1:
+            j["sample"] = {"symbol_base": gen.init_args(a["init"]), "csv": gen.rows_to_csv(h["rows"], gen.used_cols(h["rows"]))[:500],
+                           "opening_purchase_row": b["rows"][0] if info["prepended"] else None}
+        out.append(j)
+    return out
+
+
+def c16_cli(V, pop, tier):
+    """Malformed specifications are rejected before any processing; a sample of valid ones agrees
+    with the library path, through the real binary."""
+    wd = common.workdir("c16cli")
+    try:
+        cid, name, h = pop[0]
+        inp = os.path.join(wd, "in.csv")
+        with open(inp, "w") as f:
+            f.write(gen.rows_to_csv(h["rows"], gen.used_cols(h["rows"])))
+        for spec in MALFORMED:
+            for extra in ([], ["-b", "OK:1:1"], ["--total-costs"], ["--summarize-before", "2030-01-01"]):
+                r = common.run_cli("acb", [inp, "-b", spec] + extra, home=wd)
+                V.bump("malformed_specs_tried")
+                out = r["out"].decode("utf-8", "replace")
+                err = r["err"].decode("utf-8", "replace")
+                if r["rc"] == 0 or "Transactions for" in out or "Aggregate Gains" in out or not err.strip():
+                    V.violation("malformed --symbol-base %r not rejected before processing (rc=%s, stdout %d bytes, stderr %r)"
+                                % (spec, r["rc"], len(out), err[:200]),
+                                {"kind": "malformed_spec", "prop": "C16", "spec": spec, "extra": extra, "history": h},
+                                {"what": "malformed spec accepted", "spec": spec})
+                # the library entry point agrees
+            lr = common.run_harness("app", [{"id": "m", "files": [["in.csv", gen.rows_to_csv(h["rows"], gen.used_cols(h["rows"]))]],
+                                              "init": [spec], "full": True}], tag="c16m", nproc=1)["m"]
+            if lr.get("ok") or lr.get("stage") != "init":
+                V.violation("malformed --symbol-base %r not rejected by the library entry point: %s" % (spec, json.dumps(lr)[:200]),
+                            {"kind": "malformed_spec_lib", "prop": "C16", "spec": spec, "history": h}, {"what": "malformed spec accepted", "spec": spec})
+        # valid specs through the binary: CSV dir output equals the opening-purchase form
+        k = 12 if tier == "quick" else 120
+        for cid, name, h in pop[:k]:
+            rng = common.rng_for(cid, "open")
+            a, b, info = c16_build(rng, h)
+            outs = []
+            for tag, hh in (("a", a), ("b", b)):
+                p = os.path.join(wd, "%s-%s.csv" % (cid, tag))
+                with open(p, "w") as f:
+                    f.write(gen.rows_to_csv(hh["rows"], gen.used_cols(hh["rows"])))
+                od = os.path.join(wd, "%s-%s-out" % (cid, tag))
+                args = [p, "-d", od, "--print-full-values"]
+                for s in gen.init_args(hh["init"]):
+                    args += ["-b", s]
+                r = common.run_cli("acb", args, home=wd)
+                outs.append((r, od))
+            (r1, d1), (r2, d2) = outs
+            V.bump("binary_pairs")
+            if (r1["rc"] == 0) != (r2["rc"] == 0):
+                V.violation("binary: one form exits 0 and the other does not [%s]" % name,
+                            {"kind": "pair", "prop": "C16", "a": a, "b": b, "info": info}, {"what": "exit status differs"})
+                continue
+            if r1["rc"] != 0:
+                continue
+            import csv as _csv
+            for sec in sorted({r["sec"] for r in h["rows"]}):
+                t1 = list(_csv.reader(open(os.path.join(d1, sec + ".csv"), newline="")))
+                t2 = list(_csv.reader(open(os.path.join(d2, sec + ".csv"), newline="")))
+                if sec == info["sym"] and info["prepended"]:
+                    t2 = t2[:1] + t2[2:]
+                if sec == info["sym"] and not info["prepended"]:
+                    zs = lambda r: len(r) > 14 and r[3] == "Split" and r[5] == "0" and ref.af_norm(r[14]) == "default"
+                    t1 = [r for r in t1 if not zs(r)]
+                    t2 = [r for r in t2 if not zs(r)]
+                if t1 != t2:
+                    V.violation("binary: %s.csv differs between -b and an opening purchase [%s]" % (sec, name),
+                                {"kind": "pair", "prop": "C16", "a": a, "b": b, "info": info}, {"what": "figures differ (binary)"})
+                    break
+    finally:
+        common.cleanup(wd)
+
+
+def run_c16(tier):
+    seed = common.seed()
+    common.build(bins=True)
+    V = Verdict("C16", tier)
+    V.rule = ("generated inputs x an opening position SYM:n:c (n zero, fractional or large; c zero or not; sometimes a second opening position for a security "
+              "that does not occur) compared with the same input preceded by 'Buy n @ 0, commission c' by the default affiliate 31-1000 days before the "
+              "first row; plus every malformed specification through the binary and the library; non-trivial = SYM has another affiliate, a split, or a "
+              "sale within 30 days of its first row")
+    n = {"quick": 1500, "thorough": 50000}[tier]
+    pop = []
+    for i in range(n):
+        rng = common.rng_for(seed, "C16", i)
+        hh = gen.HistoryGen(rng, c16_profile(rng)).gen()
+        if hh["rows"]:
+            pop.append((common.case_id(seed, "C16", i), "input #%d" % i, hh))
+    nsh = common.NPROC * 4
+    shards = [s for s in (pop[i::nsh] for i in range(nsh)) if s]
+    with multiprocessing.Pool(common.NPROC) as pool:
+        parts = pool.map(c16_worker, shards)
+    for part in parts:
+        for j in part:
+            V.count()
+            if j["unjudged"]:
+                V.unjudged += 1
+                continue
+            V.bump("pairs_compared")
+            if j["nontrivial"]:
+                V.nontriv(j["cid"])
+            if "sample" in j:
+                V.sample(j["sample"], cap=2)
+            for f in j["findings"][:1]:
+                V.violation("%s %s [%s]" % (json.dumps(f["diff"])[:400], json.dumps(f["info"]), j["name"]),
+                            {"kind": "pair", "prop": "C16", "a": f["a"], "b": f["b"], "info": f["info"]}, {"what": f["what"]})
+    c16_cli(V, pop, tier)
+    return V.finish(floor_eval=100, floor_nontrivial=10, floors={"pairs_compared": 500, "malformed_specs_tried": 20, "binary_pairs": 5})
+
+
+def replay_c16(rec):
+    c = rec["case"]
+    common.build(bins=True)
+    if c["kind"].startswith("malformed"):
+        wd = common.workdir("c16r")
+        inp = os.path.join(wd, "in.csv")
+        h = c["history"]
+        open(inp, "w").write(gen.rows_to_csv(h["rows"], gen.used_cols(h["rows"])))
+        r = common.run_cli("acb", [inp, "-b", c["spec"]] + c.get("extra", []), home=wd)
+        common.cleanup(wd)
+        print("rc=%s stderr=%r" % (r["rc"], r["err"][:300]))
+        if r["rc"] == 0:
+            print("VIOLATION property=C16 replay=%s" % sys.argv[2])
+            return 1
+        return 0
+    res = common.run_harness("app", [history_to_case("a", c["a"]), history_to_case("b", c["b"])], tag="c16r", nproc=1)
+    d = c16_compare(res["a"], res["b"], c["info"])
+    if d:
+        print("replay finding:", json.dumps(d)[:800])
+        print("VIOLATION property=C16 replay=%s" % sys.argv[2])
+        return 1
+    print("replay: no finding reproduced")
+    return 0
+
+
+RUN = {"C07": (run_c07, replay_c07), "C08": (run_c08, replay_c08), "C15": (run_c15, replay_c15), "C16": (run_c16, replay_c16)}
 
 if __name__ == "__main__":
     import multiprocessing.pool
